@@ -87,6 +87,9 @@ static std::string unhex(const std::string& h)
 // transformer (one per case) is discarded.
 struct TooBig {};
 static const size_t LIMIT = 20000;
+// set when a callback abandons the case: XalanTransformer::transform() may turn the exception into an error status
+// (it has catch-all handlers), so the harness decides by this flag, not by what comes out of transform()
+static bool g_tooBig = false;
 
 class RecordingListener : public FormatterListener
 {
@@ -94,7 +97,7 @@ public:
     std::string out;
     size_t count = 0;
     RecordingListener() : FormatterListener(OUTPUT_METHOD_NONE) {}
-    void add(const std::string& t) { if (++count > LIMIT) throw TooBig(); if (!out.empty()) out += ' '; out += t; }
+    void add(const std::string& t) { if (g_tooBig || ++count > LIMIT) { g_tooBig = true; throw TooBig(); } if (!out.empty()) out += ' '; out += t; }
     virtual void charactersRaw(const XMLCh* const chars, const size_type length) { add("T:" + hexs(utf8(chars, length))); }
     virtual void comment(const XMLCh* const data) { add("C:" + hexs(utf8(data))); }
     virtual void cdata(const XMLCh* const ch, const size_type length) { add("T:" + hexs(utf8(ch, length))); }
@@ -123,7 +126,7 @@ public:
     size_t count = 0;
     virtual void trace(const TracerEvent& ev)
     {
-        if (++count > LIMIT) throw TooBig();
+        if (g_tooBig || ++count > LIMIT) { g_tooBig = true; throw TooBig(); }
         if (!out.empty()) out += ' ';
         out += utf8(ev.m_styleNode.getElementName());
     }
@@ -171,12 +174,18 @@ static std::string runXslt(const std::vector<std::string>& w)
     RecordingListener fl;
     XSLTResultTarget target(fl);
     int rc = 0;
+    g_tooBig = false;
     try
     {
         rc = t.transform(xmlIn, xslIn, target);
     }
     catch (const TooBig&)
     {
+        return "big";
+    }
+    if (g_tooBig)
+    {
+        g_tooBig = false;
         return "big";
     }
     if (rc != 0)
